@@ -527,10 +527,16 @@ func doSignSites(tr *vhlib.Trace) {
 	if root == "" {
 		root = "/repo"
 	}
-	var sites []string
+	var sites, edges []string
 	for _, dir := range []string{"rhp/v2", "rhp/v3"} {
 		files, _ := filepath.Glob(filepath.Join(root, dir, "*.go"))
 		sort.Strings(files)
+		type fnInfo struct {
+			file    string
+			signs   int
+			callees map[string]bool
+		}
+		fns := map[string]*fnInfo{}
 		for _, f := range files {
 			base := filepath.Base(f)
 			if strings.HasSuffix(base, "_test.go") || strings.HasPrefix(base, "zz_verif") {
@@ -547,23 +553,58 @@ func doSignSites(tr *vhlib.Trace) {
 				if !ok || fd.Body == nil {
 					continue
 				}
-				n := 0
+				fi := &fnInfo{file: base, callees: map[string]bool{}}
 				ast.Inspect(fd.Body, func(x ast.Node) bool {
 					if ce, ok := x.(*ast.CallExpr); ok {
-						if se, ok := ce.Fun.(*ast.SelectorExpr); ok && se.Sel.Name == "SignHash" {
-							n++
+						switch fn := ce.Fun.(type) {
+						case *ast.SelectorExpr:
+							if fn.Sel.Name == "SignHash" {
+								fi.signs++
+							}
+							fi.callees[fn.Sel.Name] = true
+						case *ast.Ident:
+							fi.callees[fn.Name] = true
 						}
 					}
 					return true
 				})
-				if n > 0 {
-					sites = append(sites, fmt.Sprintf("%s/%s:%s:%d", dir, base, fd.Name.Name, n))
+				fns[fd.Name.Name] = fi
+			}
+		}
+		// the functions that sign themselves, and the call edges of the package through which a signing
+		// function is reached (so that a signing call moved into a helper is attributed to its callers)
+		reaches := map[string]bool{}
+		for n, fi := range fns {
+			if fi.signs > 0 {
+				reaches[n] = true
+				sites = append(sites, fmt.Sprintf("%s/%s:%s:%d", dir, fi.file, n, fi.signs))
+			}
+		}
+		for changed := true; changed; {
+			changed = false
+			for n, fi := range fns {
+				if reaches[n] {
+					continue
+				}
+				for c := range fi.callees {
+					if reaches[c] && fns[c] != nil {
+						reaches[n] = true
+						changed = true
+					}
+				}
+			}
+		}
+		for n, fi := range fns {
+			for c := range fi.callees {
+				if fns[c] != nil && reaches[c] && c != n {
+					edges = append(edges, fmt.Sprintf("%s:%s>%s", dir, n, c))
 				}
 			}
 		}
 	}
 	sort.Strings(sites)
-	tr.Line("signsites", "list="+vhlib.FmtList(sites))
+	sort.Strings(edges)
+	tr.Line("signsites", "list="+vhlib.FmtList(sites)+" edges="+vhlib.FmtList(edges))
 }
 
 var _ = context.Background
